@@ -21,9 +21,14 @@ Proof. reflexivity. Qed.
 
 (* a report is `single` when its bytes lead to an accepting terminal state whose item is the
    event it denotes *)
+(* the event of an accepting state: the item, or Raw of the bytes when the payload decoder
+   returns None (decoder.rs:264-269 and TTYEventDecoder::decode) *)
+Definition item_event (o : option tev) (w : list N) : tev :=
+  match o with Some e => e | None => ERaw w end.
+
 Definition single_bytes (w : list N) (ev : tev) : Prop :=
   w <> [] /\ exists q, prod_run w = Some q /\ d_accepting event_dfa q = true
-                       /\ d_terminal event_dfa q = true /\ prod_item q w = Some ev.
+                       /\ d_terminal event_dfa q = true /\ item_event (prod_item q w) w = ev.
 
 Theorem decode_single w ev rest :
   single_bytes w ev ->
@@ -33,7 +38,8 @@ Proof.
   unfold prod_decode, ev_decode, ev_munch.
   rewrite (munch_terminal N tev (d_start event_dfa) (d_delta event_dfa) (d_accepting event_dfa)
              (d_terminal event_dfa) _ event_term_dead w q rest Hne Hrun Hacc Hterm).
-  cbn [fst snd map]. unfold mk_tok. fold prod_item. rewrite Hitem. reflexivity.
+  cbn [fst snd map]. unfold mk_tok. fold prod_item. rewrite <- Hitem.
+  destruct (prod_item q w); reflexivity.
 Qed.
 
 Definition single (r : report) : Prop := single_bytes (print r) (prod_denote r).
@@ -78,9 +84,22 @@ Proof.
   split; [rewrite prod_run_from; exact Hr|]. split; [exact Ha|]. split; [exact Ht|].
   unfold prod_item, ev_item. destruct (d_tag event_dfa q) as [[[|] i]|]; try discriminate.
   apply N.eqb_eq in Htag. destruct (nth_error event_matcher_ids (N.to_nat i)) as [id'|] eqn:E.
-  - rewrite (nth_error_nth _ _ 999 E) in Htag. subst id'. exact Hp.
+  - rewrite (nth_error_nth _ _ 999 E) in Htag. subst id'. rewrite Hp. reflexivity.
   - rewrite (nth_overflow _ 999) in Htag by (apply nth_error_None, E).
     subst id. cbn in Hp. discriminate.
+Qed.
+
+Lemma fam_single_raw p id w :
+  family_check event_dfa p (fam_good id) = true -> matches p w -> w <> [] ->
+  ev_payload decmode_codes decstatus_codes id w = None ->
+  single_bytes w (ERaw w).
+Proof.
+  intros Hc Hm Hne Hp. destruct (family_check_sound event_dfa p (fam_good id) w Hc Hm) as (q & Hr & Hg).
+  split; [exact Hne|]. exists q. unfold fam_good in Hg. rewrite !andb_true_iff in Hg. destruct Hg as [[Ha Ht] Htag].
+  split; [rewrite prod_run_from; exact Hr|]. split; [exact Ha|]. split; [exact Ht|].
+  unfold prod_item, ev_item. destruct (d_tag event_dfa q) as [[[|] i]|]; try discriminate.
+  apply N.eqb_eq in Htag. destruct (nth_error event_matcher_ids (N.to_nat i)) as [id'|] eqn:E; [|reflexivity].
+  rewrite (nth_error_nth _ _ 999 E) in Htag. subst id'. rewrite Hp. reflexivity.
 Qed.
 
 (* ---- the literal key table ---- *)
